@@ -1354,10 +1354,16 @@ class SpaceManager(SharedSpaceOperations):
         cells = space.cells[name]
         if cells.is_derived():
             raise ValueError("cannot delete derived")
+        for subspace in self._get_subs(space, skip_self=False):
+            # Delete the ItemSpaces built from the spaces having the cells
+            subspace.clear_subs_rootitems()
         space.on_del_cells(name)
         self.update_subs(space, skip_self=False)
 
     def del_ref(self, space, name):
+        for subspace in self._get_subs(space, skip_self=False):
+            # Delete the ItemSpaces built from the spaces having the ref
+            subspace.clear_subs_rootitems()
         space.on_del_ref(name)
         self.update_subs(space, skip_self=False)
 
